@@ -196,7 +196,7 @@ def run_inst(spec, run):
     oracle_spec = _mut_spec(model_spec, mu) if mu else model_spec
 
     def fn(ctx):
-        env = plh.sym_env(ctx, model_spec)
+        env = plh.sym_env(ctx, model_spec, validated=False)       # C04 is not restricted to validated models
         vals = plh.leaf_syms(ctx, model_spec, env)
         zvals = {k: v.e for k, v in vals.items()}
         ref = pl.sem(oracle_spec, env, zvals)
